@@ -103,3 +103,21 @@ def unload(m, d):
     sys.modules.pop(m.name, None)
     if d in sys.path:
         sys.path.remove(d)
+
+
+def plan_to_json(m, plan):
+    return [{"qual": f.qual, "access": m.access(f), "args": a, "kwargs": kw, "flavor": f.flavor, "kind": f.kind} for f, a, kw in plan]
+
+
+class _F:
+    def __init__(self, d):
+        self.qual, self.flavor, self.kind, self._access = d["qual"], d["flavor"], d["kind"], d["access"]
+
+
+class _M:
+    def access(self, f):
+        return f._access
+
+
+def drive_json(tmod, plan_json, records=None):
+    drive(tmod, _M(), [(_F(d), d["args"], d["kwargs"]) for d in plan_json], records)
